@@ -87,9 +87,9 @@ func init() {
 			assumptions: []string{"events carry one of the three types and a non-nil object (established by the producers; used as an assumption at the receive)"},
 		},
 		"C17": {
-			explanation: "Every Equals and FiltersEqual is proved against 'result => the two filters accept the same objects', with accept defined per filter type (C18/C19) and representations immutable (generated structural obligations).",
-			notDecided:  []string{"completeness (filters built twice from the same arguments compare equal)", "order-independence of workload filters (needs sortedness of sort.Slice)"},
-			assumptions: []string{"reflect.DeepEqual / labels.Equals imply equal abstract value for the compared types"},
+			explanation: "Soundness: every Equals and FiltersEqual is proved against 'result => the two filters accept the same objects', with accept defined per filter type (C18/C19) and representations immutable (generated structural obligations). Completeness: every Equals, compareFilterList and FiltersEqual is also proved against 'built the same way => result' (relation bs, defined per filter type), and one lemma per constructor (Null, All, Not, And, Or, NSName, Selector, Labels, LabelSelector, NodeFilter, InvolvedFilter, SelectorMatchFilter) shows over the constructor's own postconditions that two calls with the same arguments give bs-related filters for which FiltersEqual returns true. Workload filters: a lemma shows that source lists with the same elements in any order give filters that accept the same objects.",
+			notDecided:  []string{"that workload filters built from permuted sources also compare Equal (needs the sortedness of sort.Slice, which is modelled as an arbitrary permutation): bounded search only", "completeness for the seven PodsFilter / ServicesFilter constructors (same reason)"},
+			assumptions: []string{"reflect.DeepEqual / labels.Equals imply equal abstract value for the compared types", "reflect.DeepEqual is reflexive on selectors and holds for nsNameFilter / nodeFilter values with the same map contents and slice elements", "labels.SelectorFromSet / LabelSelectorAsSelector are functions of their argument"},
 		},
 		"C18": {
 			explanation: "Each Accept body is proved equal to accept(self, obj), where accept is axiomatised per filter type by the property's sentences; constructors are proved to establish the representation their Accept relies on.",
@@ -98,7 +98,7 @@ func init() {
 		},
 		"C19": {
 			explanation: "PodsFilter of the seven workload kinds, NodeFilter, InvolvedFilter, SelectorMatchFilter proved against 'accepts iff some given workload in the pod's namespace selects it' etc.; two clauses of the replication-controller filter fail and are known findings.",
-			notDecided:  []string{"ingress.ServicesFilter (nested loops) is not under contract yet"},
+			notDecided:  []string{"the two replication-controller clauses recorded as known findings"},
 			assumptions: []string{"sort.Slice rebinds the slice to a permutation; Kubernetes label matching"},
 		},
 		"C20": {
